@@ -97,14 +97,21 @@ def plant(rng, arch, b):
         d, big = rng.choice([("@db ", 300), ("@dw ", 70000), ("@db ", -200)])
         if kind == "range":
             tok = str(big) if big >= 0 else "0 - 200"
-            if rng.random() < 0.35:
+            k9 = rng.random()
+            if k9 < 0.3:
                 # an operand that starts with a parenthesis is located at the parenthesis
                 tok = rng.choice(["( %s )", "( %s + 0 )", "(%s)", "( ( %s ) )"]) % tok
+            elif k9 < 0.6 and big > 0:
+                # ... one that starts with a unary operator at that operator (every one of them)
+                tok = rng.choice(["> $1234 + %d", "<  $1234 + %d", "- ( 0 - %d )", "~ ( 0 - %d - 1 )", "! 0 + %d - 1", "+ %d", "- - %d", "~ ~ %d"]) % big
         else:
             tok = "fwd%d" % rng.randrange(10**6)
             trailer.append("@defn %s, %d" % (tok, big) if big >= 0 else "@defn %s, 0 - 200" % tok)
-            if rng.random() < 0.35:
+            k9 = rng.random()
+            if k9 < 0.3:
                 tok = rng.choice(["( %s )", "( %s + 0 )", "(%s)"]) % tok
+            elif k9 < 0.6 and big > 0:
+                tok = rng.choice(["> 0 + %s", "<  0 + %s", "- ( 0 - %s )", "~ ~ %s", "! 1 + %s", "+ %s"]) % tok
         if d == "@dw " and '"' in ops:
             ops = "7, "
         p = stmt(d + ops, tok, rng.choice(["", " + 0", " * 1"]))
